@@ -28,6 +28,7 @@ import (
 	"time"
 
 	"github.com/youzan/ZanRedisDB/pkg/fileutil"
+	"github.com/youzan/ZanRedisDB/pkg/wait"
 	"github.com/youzan/ZanRedisDB/raft"
 )
 
@@ -101,6 +102,7 @@ func newVerifState() *verifState {
 
 func init() {
 	fileutil.VerifHook = verifPoint
+	wait.VerifHook = verifPoint
 }
 
 func (s *verifState) report(format string, args ...interface{}) {
